@@ -4,7 +4,9 @@ patch="$1"; shift
 cd /repo || exit 2
 git apply "$patch" || { echo "PATCH DOES NOT APPLY"; exit 2; }
 cd /verif
+mkdir -p /tmp/w/evsave && cp -f evidence/*.json /tmp/w/evsave/ 2>/dev/null
 for id in "$@"; do
   ./check "$id" --tier quick 2>&1 | grep -v conda | grep -E "VIOLATION|KNOWN|^\[" | cut -c1-220 | head -6
 done
 git -C /repo checkout -- . ; git -C /repo status --short
+cp -f /tmp/w/evsave/*.json evidence/ 2>/dev/null
